@@ -1121,6 +1121,77 @@ def c14_12(ck, prog):
         raise AnalysisBroken('functions editing the owner queue: only %d found' % n)
 
 
+GROW_ALLOCATORS = {'dbus_malloc', 'dbus_malloc0', 'dbus_realloc'}
+CONTAINER_FILES = {'dbus/dbus-hash.c', 'dbus/dbus-mempool.c', 'dbus/dbus-dataslot.c', 'dbus/dbus-list.c',
+                   'dbus/dbus-resources.c'}
+
+
+def c14_13(ck, prog):
+    """Growing a container is all-or-nothing."""
+    r = ck.rule('C14.13', 'a container primitive (hash table, memory pool, data slots, lists, counters) whose allocation '
+                'fails leaves the container as it was: every field of the container object (reached from a parameter) '
+                'that was stored before the allocation is stored again on the path from the failed allocation to the '
+                'return, in every function of those modules that allocates (path-sensitive)', 'TS',
+                breaks='after one failed allocation the bookkeeping describes a block or bucket array that was never '
+                'obtained: the next insertion writes past the end of the old one (heap corruption in the bus long after '
+                'the memory shortage is over)', floor=3)
+    n = 0
+    for fn in lib.prod_funcs(prog, CONTAINER_FILES):
+        allocs = {c['id'] for b, i, c in fn.calls() if c.get('callee') in GROW_ALLOCATORS}
+        if not allocs:
+            continue
+        params = {p['id'] for p in fn.params}
+
+        def rooted(e):
+            arrow = False
+            while isinstance(e, dict) and e.get('k') in ('member', 'sub', 'paren', 'cast'):
+                if e.get('k') == 'member' and e.get('arrow'):
+                    arrow = True
+                e = e.get('base') if e.get('k') in ('member', 'sub') else e.get('e')
+            return arrow and is_ref(e) and e.get('id') in params
+        has_store = any(lhs.get('k') == 'member' and rooted(lhs) for b, i, ev in fn.events()
+                        for lhs, how, rhs in written_lvalues(ev) if how != '&arg')
+        if not has_store:
+            continue
+        n += 1
+
+        def on_event(user, ev, ctx, allocs=allocs):
+            dirty, snaps = user
+            if ev['ev'] == 'call' and ev['e'].get('id') in allocs:
+                if dirty:
+                    snaps = frozenset(snaps | {(ev['e']['id'], dirty)})
+                return (dirty, snaps)
+            for lhs, how, rhs in written_lvalues(ev):
+                if how == '&arg' or lhs.get('k') != 'member' or not rooted(lhs):
+                    continue
+                k = estr(lhs)
+                # a store of the allocation's own result is the allocation, not a change made before it
+                dirty = frozenset(dirty | {k})
+                snaps = frozenset((aid, frozenset(f2 for f2 in fields if f2 != k)) for aid, fields in snaps)
+            return (dirty, snaps)
+
+        def on_exit(user, ctx, ret, ev, fn=fn):
+            dirty, snaps = user
+            for aid, fields in snaps:
+                if fields and ctx.result_known(aid) is False:
+                    ctx.report('%s returns after its allocation failed with %s still changed' % (
+                        fn.name, ', '.join(sorted(fields))), ev['line'] if ev else fn.line,
+                        key=('half-grown', tuple(sorted(fields))))
+        try:
+            ex = Explorer(fn, init=(frozenset(), frozenset()), on_event=on_event, on_exit=on_exit, calls=GROW_ALLOCATORS,
+                          track='auto', cap=300000).run()
+        except AnalysisBroken:
+            r.note('%s: too many paths; no verdict' % fn.name)
+            continue
+        key = '%s:all-or-nothing' % fn.name
+        if ex.reports:
+            r.from_reports(ex.reports, keyfn=lambda k, rep, fn=fn: '%s:%s' % (fn.name, '+'.join(k[1])))
+        else:
+            r.ok(key)
+    if n < 3:
+        raise AnalysisBroken('allocating container primitives: only %d found' % n)
+
+
 def run(ck):
     ck.explanation = (
         'Static rules over bus/services.c, bus/driver.c, bus/connection.c, bus/dispatch.c, bus/signals.c, '
@@ -1146,6 +1217,7 @@ def run(ck):
         c14_2g(ck, prog)
         c14_9(ck, prog)
         c14_12(ck, prog)
+        c14_13(ck, prog)
         from rules.C12 import c12_9
         c12_9(ck, prog, 'C14.10')
         c14_7(ck, prog)
